@@ -24,9 +24,16 @@
       reader is dropped, whether a cancel races a completion) is exercised by the peer / delivery
       actions of the trace, so the host stays self-consistent.
 
-    Every value is moved, never inspected: payloads are [N].  The ledger (ghost fields, updated exactly
-    where the corresponding token is emitted) counts lowered buffers, [Cleanup] areas and live Rust
-    values as [Z] so that a double free would go negative instead of being absorbed. *)
+    Every payload value is moved, never inspected, so the per-future core ([fut], [cstep]) carries
+    payloads SYMBOLICALLY ([sval]: the value of the latest accepted user write on this future, the
+    default closure's value, the value the peer wrote, or uninitialised memory); the system wrapper
+    ([sfut], [step]) remembers the concrete numbers and resolves the symbols when it appends an action's
+    tokens to the log ([resolve]).  That makes the per-future state space finite, which is what the
+    proofs exploit (verified reachability computation, FutureOpReach.v); [C20_user_value_stable]
+    (no user write is accepted once a value has been moved) is what justifies naming "the user's value"
+    by a single symbol.  The ledger (ghost fields, updated exactly where the corresponding token is
+    emitted) counts lowered buffers, [Cleanup] areas and live Rust values as [Z] so that a double free
+    would go negative instead of being absorbed. *)
 From Coq Require Import NArith ZArith List Bool.
 Import ListNotations.
 Local Open Scope N_scope.
@@ -39,6 +46,11 @@ Definition CANCELLED : N := 2.
 Definition EV_FUTURE_READ : N := 4.
 Definition EV_FUTURE_WRITE : N := 5.
 Definition DEFAULT_VAL : N := 777.
+
+(** Symbolic payload values. *)
+Inductive sval := VUser | VDefault | VPeer | VJunk.
+Definition resolve (uval pval : N) (v : sval) : N :=
+  match v with VUser => uval | VDefault => DEFAULT_VAL | VPeer => pval | VJunk => 0 end.
 
 Inductive endk := EW | ER.
 
@@ -62,6 +74,12 @@ Inductive act :=
 | APeerWrite (f : nat) (v : N)       (* Pw:F:V *)
 | ADeliver (f : nat) (e : endk).     (* E:Fw / E:Fr the task is handed the pending event of that end *)
 
+(** The same, per future and without the payload (what the core sees). *)
+Inductive fact :=
+| FWrite | FWPoll | FWCancel | FWDropOp | FDropWriter
+| FRead | FRPoll | FRCancel | FRDropOp | FDropReader
+| FTransfer | FPeerRead | FPeerDrop | FPeerWrite | FDeliver (e : endk).
+
 (** ** Observable tokens *)
 Inductive trapk :=
 | TrWriteBad | TrWriteBusy | TrWriteDone
@@ -79,24 +97,58 @@ Inductive panick :=
 | PPollAfterCancel     (* "cannot poll after cancelling"                — must be unreachable *)
 | PCancelPending.      (* unreachable!() in WaitableOperation::cancel   — must be unreachable *)
 
-Inductive outcome :=
-| OOk | OSkip | OPending
-| OWOk | OWErr (v : N)
-| OAlreadySent | ODropped (v : N) | OCancelled (v : N)
-| OVal (v : N) | OROk (v : N) | ORErr
-| OPanic (p : panick).
+Section Tok.
+  Variable V : Type.
+  Inductive outcome :=
+  | OOk | OSkip | OPending
+  | OWOk | OWErr (v : V)
+  | OAlreadySent | ODropped (v : V) | OCancelled (v : V)
+  | OVal (v : V) | OROk (v : V) | ORErr
+  | OPanic (p : panick).
 
-Inductive tok :=
-| KAct (a : act) | KOut (o : outcome)
-| KFnew (f : nat) | KTake (f : nat) (e : endk)
-| KWrite (f : nat) (c : N) | KRead (f : nat) (c : N)
-| KCancel (f : nat) (e : endk) (c : N) | KDropEnd (f : nat) (e : endk)
-| KJoin (f : nat) (e : endk) (s : bool) | KWsnew | KWspoll (f : nat) (e : endk) (ev c : N)
-| KTreg (f : nat) (e : endk) | KTunreg (f : nat) (e : endk) | KTclone | KTdrop
-| KTdeliver (f : nat) (e : endk) (c : N)
-| KLower (v : N) | KLift (v : N) | KRelift (v : N) | KDealloc (v : N) | KVdrop (v : N)
-| KDefault | KAreaP | KAreaM | KWake
-| KTrap (t : trapk).
+  (** Tokens of one action on one future (the future's index is added by the system wrapper). *)
+  Inductive tok :=
+  | KOut (o : outcome)
+  | KFnew | KTake (e : endk)
+  | KWrite (c : N) | KRead (c : N)
+  | KCancel (e : endk) (c : N) | KDropEnd (e : endk)
+  | KJoin (e : endk) (s : bool) | KWsnew | KWspoll (e : endk) (ev c : N)
+  | KTreg (e : endk) | KTunreg (e : endk) | KTclone | KTdrop
+  | KTdeliver (e : endk) (c : N)
+  | KLower (v : V) | KLift (v : V) | KRelift (v : V) | KDealloc (v : V) | KVdrop (v : V)
+  | KDefault | KAreaP | KAreaM | KWake
+  | KTrap (t : trapk).
+End Tok.
+Arguments OOk {V}. Arguments OSkip {V}. Arguments OPending {V}. Arguments OWOk {V}. Arguments OWErr {V} v.
+Arguments OAlreadySent {V}. Arguments ODropped {V} v. Arguments OCancelled {V} v. Arguments OVal {V} v.
+Arguments OROk {V} v. Arguments ORErr {V}. Arguments OPanic {V} p.
+Arguments KOut {V} o. Arguments KFnew {V}. Arguments KTake {V} e. Arguments KWrite {V} c. Arguments KRead {V} c.
+Arguments KCancel {V} e c. Arguments KDropEnd {V} e. Arguments KJoin {V} e s. Arguments KWsnew {V}.
+Arguments KWspoll {V} e ev c. Arguments KTreg {V} e. Arguments KTunreg {V} e. Arguments KTclone {V}.
+Arguments KTdrop {V}. Arguments KTdeliver {V} e c. Arguments KLower {V} v. Arguments KLift {V} v.
+Arguments KRelift {V} v. Arguments KDealloc {V} v. Arguments KVdrop {V} v. Arguments KDefault {V}.
+Arguments KAreaP {V}. Arguments KAreaM {V}. Arguments KWake {V}. Arguments KTrap {V} t.
+
+Definition omap {V W} (g : V -> W) (o : outcome V) : outcome W :=
+  match o with
+  | OOk => OOk | OSkip => OSkip | OPending => OPending | OWOk => OWOk | OWErr v => OWErr (g v)
+  | OAlreadySent => OAlreadySent | ODropped v => ODropped (g v) | OCancelled v => OCancelled (g v)
+  | OVal v => OVal (g v) | OROk v => OROk (g v) | ORErr => ORErr | OPanic p => OPanic p
+  end.
+Definition tmap {V W} (g : V -> W) (t : tok V) : tok W :=
+  match t with
+  | KOut o => KOut (omap g o)
+  | KFnew => KFnew | KTake e => KTake e | KWrite c => KWrite c | KRead c => KRead c
+  | KCancel e c => KCancel e c | KDropEnd e => KDropEnd e | KJoin e s => KJoin e s | KWsnew => KWsnew
+  | KWspoll e ev c => KWspoll e ev c | KTreg e => KTreg e | KTunreg e => KTunreg e | KTclone => KTclone
+  | KTdrop => KTdrop | KTdeliver e c => KTdeliver e c
+  | KLower v => KLower (g v) | KLift v => KLift (g v) | KRelift v => KRelift (g v)
+  | KDealloc v => KDealloc (g v) | KVdrop v => KVdrop (g v)
+  | KDefault => KDefault | KAreaP => KAreaP | KAreaM => KAreaM | KWake => KWake | KTrap x => KTrap x
+  end.
+
+(** An entry of the system log: the action word, or a token of the action running on future [f]. *)
+Inductive entry := EAct (a : act) | ETok (f : nat) (t : tok N).
 
 (** ** State of one future *)
 (** One guest end as the host sees it (rtmock [End] + [joined] + [ready]); [e_buf] is the memory the
@@ -104,14 +156,14 @@ Inductive tok :=
     copied in). *)
 Record hend := mkEnd {
   e_live : bool; e_copying : bool; e_done : bool; e_joined : bool;
-  e_ready : option N; e_buf : N }.
+  e_ready : option N; e_buf : sval }.
 
 Record hostf := mkHost {
   hw : hend; hr : hend;
   r_dropped : bool; w_dropped : bool;
   peer_read : bool;               (* the peer has a read pending *)
-  peer_write : option N;          (* the peer has a write pending *)
-  peer_recv : list N;             (* everything the peer has received *)
+  peer_write : option sval;       (* the peer has a write pending *)
+  peer_recv : list sval;          (* everything the peer has received *)
   moved : bool                    (* rtmock [transferred] > 0 *) }.
 
 Inductive opst := OStart | OInProg | ODone.
@@ -123,9 +175,9 @@ Record opc := mkOp { o_st : opst; o_code : option N; o_cl : bool; o_treg : bool 
 Record rtf := mkRt {
   regw : bool; regr : bool;            (* the task's registration map *)
   writer : bool;                       (* a FutureWriter is held by the user *)
-  write : option (opc * N);            (* a FutureWrite is held by the user; N = the value (Start) / the
+  write : option (opc * sval);         (* a FutureWrite is held by the user; with its value (Start) / its
                                           lowered buffer (InProgress) *)
-  deferred : option (opc * N);         (* a DeferredWrite is alive (kept by its own waker) *)
+  deferred : option (opc * sval);         (* a DeferredWrite is alive (kept by its own waker) *)
   reader : bool;                       (* a FutureReader is held by the user *)
   read : option opc }.                 (* a FutureRead is held by the user *)
 
@@ -135,16 +187,19 @@ Record ghost := mkGhost {
   g_area : Z;               (* live Cleanup allocations *)
   g_live : Z;               (* live Rust payload values (counted for both payload kinds) *)
   n_dropw : nat; n_dropr : nat;   (* future.drop-writable / drop-readable calls *)
-  got : list N;             (* values the guest's readable end yielded to the user *)
-  sent : list N;            (* values whose write was reported successful to the writing side *)
-  wvals : list N;           (* values handed to a write on the guest's writable end (user's and defaults) *)
-  xfer : list N;            (* values the host moved writer -> reader (rendezvous) *)
-  n_default : nat }.
+  n_taker : nat;            (* times the readable end was handed to the peer (take_handle) *)
+  got : list sval;          (* values the guest's readable end lifted out of the future *)
+  sent : list sval;         (* values whose write was reported successful to the writing side *)
+  wv_user : bool;           (* a user value / a default value has been handed to a write on the guest's *)
+  wv_dflt : bool;           (*   writable end *)
+  xfer : list sval;         (* values the host moved writer -> reader (rendezvous) *)
+  n_default : nat;
+  r_gaveup : bool }.        (* the readable end was dropped (by the guest or by the peer) before any value had been moved *)
 
 Record fut := mkFut { f_heap : bool; f_imp : bool; fh : hostf; fr : rtf; fg : ghost }.
 
-(** Machine state while one action runs on future [mi]. *)
-Record ms := mkMs { mi : nat; mv2 : bool; mf : fut; mset : bool; mlog : list tok }.
+(** Machine state while one action runs on a future ([mlog]: this action's tokens, newest first). *)
+Record ms := mkMs { mv2 : bool; mf : fut; mset : bool; mlog : list (tok sval) }.
 
 (** *** setters *)
 Definition set_live b e := mkEnd b (e_copying e) (e_done e) (e_joined e) (e_ready e) (e_buf e).
@@ -153,8 +208,8 @@ Definition set_done b e := mkEnd (e_live e) (e_copying e) b (e_joined e) (e_read
 Definition set_joined b e := mkEnd (e_live e) (e_copying e) (e_done e) b (e_ready e) (e_buf e).
 Definition set_ready r e := mkEnd (e_live e) (e_copying e) (e_done e) (e_joined e) r (e_buf e).
 Definition set_buf v e := mkEnd (e_live e) (e_copying e) (e_done e) (e_joined e) (e_ready e) v.
-Definition end_idle : hend := mkEnd true false false false None 0.
-Definition end_gone : hend := mkEnd false false false false None 0.
+Definition end_idle : hend := mkEnd true false false false None VJunk.
+Definition end_gone : hend := mkEnd false false false false None VJunk.
 
 Definition set_hw x h := mkHost x (hr h) (r_dropped h) (w_dropped h) (peer_read h) (peer_write h) (peer_recv h) (moved h).
 Definition set_hr x h := mkHost (hw h) x (r_dropped h) (w_dropped h) (peer_read h) (peer_write h) (peer_recv h) (moved h).
@@ -185,28 +240,31 @@ Definition set_o_cl x o := mkOp (o_st o) (o_code o) x (o_treg o).
 Definition set_o_treg x o := mkOp (o_st o) (o_code o) (o_cl o) x.
 Definition op_new : opc := mkOp OStart None false false.
 
-Definition add_low d g := mkGhost (g_low g + d) (g_area g) (g_live g) (n_dropw g) (n_dropr g) (got g) (sent g) (wvals g) (xfer g) (n_default g).
-Definition add_area d g := mkGhost (g_low g) (g_area g + d) (g_live g) (n_dropw g) (n_dropr g) (got g) (sent g) (wvals g) (xfer g) (n_default g).
-Definition add_live d g := mkGhost (g_low g) (g_area g) (g_live g + d) (n_dropw g) (n_dropr g) (got g) (sent g) (wvals g) (xfer g) (n_default g).
-Definition inc_dropw g := mkGhost (g_low g) (g_area g) (g_live g) (S (n_dropw g)) (n_dropr g) (got g) (sent g) (wvals g) (xfer g) (n_default g).
-Definition inc_dropr g := mkGhost (g_low g) (g_area g) (g_live g) (n_dropw g) (S (n_dropr g)) (got g) (sent g) (wvals g) (xfer g) (n_default g).
-Definition add_got v g := mkGhost (g_low g) (g_area g) (g_live g) (n_dropw g) (n_dropr g) (got g ++ [v]) (sent g) (wvals g) (xfer g) (n_default g).
-Definition add_sent v g := mkGhost (g_low g) (g_area g) (g_live g) (n_dropw g) (n_dropr g) (got g) (sent g ++ [v]) (wvals g) (xfer g) (n_default g).
-Definition add_wval v g := mkGhost (g_low g) (g_area g) (g_live g) (n_dropw g) (n_dropr g) (got g) (sent g) (wvals g ++ [v]) (xfer g) (n_default g).
-Definition add_xfer v g := mkGhost (g_low g) (g_area g) (g_live g) (n_dropw g) (n_dropr g) (got g) (sent g) (wvals g) (xfer g ++ [v]) (n_default g).
-Definition inc_default g := mkGhost (g_low g) (g_area g) (g_live g) (n_dropw g) (n_dropr g) (got g) (sent g) (wvals g) (xfer g) (S (n_default g)).
-Definition ghost0 : ghost := mkGhost 0 0 0 0 0 [] [] [] [] 0.
+Definition add_low d g := mkGhost (g_low g + d) (g_area g) (g_live g) (n_dropw g) (n_dropr g) (n_taker g) (got g) (sent g) (wv_user g) (wv_dflt g) (xfer g) (n_default g) (r_gaveup g).
+Definition add_area d g := mkGhost (g_low g) (g_area g + d) (g_live g) (n_dropw g) (n_dropr g) (n_taker g) (got g) (sent g) (wv_user g) (wv_dflt g) (xfer g) (n_default g) (r_gaveup g).
+Definition add_live d g := mkGhost (g_low g) (g_area g) (g_live g + d) (n_dropw g) (n_dropr g) (n_taker g) (got g) (sent g) (wv_user g) (wv_dflt g) (xfer g) (n_default g) (r_gaveup g).
+Definition inc_dropw g := mkGhost (g_low g) (g_area g) (g_live g) (S (n_dropw g)) (n_dropr g) (n_taker g) (got g) (sent g) (wv_user g) (wv_dflt g) (xfer g) (n_default g) (r_gaveup g).
+Definition inc_dropr g := mkGhost (g_low g) (g_area g) (g_live g) (n_dropw g) (S (n_dropr g)) (n_taker g) (got g) (sent g) (wv_user g) (wv_dflt g) (xfer g) (n_default g) (r_gaveup g).
+Definition inc_taker g := mkGhost (g_low g) (g_area g) (g_live g) (n_dropw g) (n_dropr g) (S (n_taker g)) (got g) (sent g) (wv_user g) (wv_dflt g) (xfer g) (n_default g) (r_gaveup g).
+Definition add_got v g := mkGhost (g_low g) (g_area g) (g_live g) (n_dropw g) (n_dropr g) (n_taker g) (got g ++ [v]) (sent g) (wv_user g) (wv_dflt g) (xfer g) (n_default g) (r_gaveup g).
+Definition add_sent v g := mkGhost (g_low g) (g_area g) (g_live g) (n_dropw g) (n_dropr g) (n_taker g) (got g) (sent g ++ [v]) (wv_user g) (wv_dflt g) (xfer g) (n_default g) (r_gaveup g).
+Definition set_wv_user g := mkGhost (g_low g) (g_area g) (g_live g) (n_dropw g) (n_dropr g) (n_taker g) (got g) (sent g) (true) (wv_dflt g) (xfer g) (n_default g) (r_gaveup g).
+Definition set_wv_dflt g := mkGhost (g_low g) (g_area g) (g_live g) (n_dropw g) (n_dropr g) (n_taker g) (got g) (sent g) (wv_user g) (true) (xfer g) (n_default g) (r_gaveup g).
+Definition add_xfer v g := mkGhost (g_low g) (g_area g) (g_live g) (n_dropw g) (n_dropr g) (n_taker g) (got g) (sent g) (wv_user g) (wv_dflt g) (xfer g ++ [v]) (n_default g) (r_gaveup g).
+Definition inc_default g := mkGhost (g_low g) (g_area g) (g_live g) (n_dropw g) (n_dropr g) (n_taker g) (got g) (sent g) (wv_user g) (wv_dflt g) (xfer g) (S (n_default g)) (r_gaveup g).
+Definition set_gaveup g := mkGhost (g_low g) (g_area g) (g_live g) (n_dropw g) (n_dropr g) (n_taker g) (got g) (sent g) (wv_user g) (wv_dflt g) (xfer g) (n_default g) (true).
+Definition ghost0 : ghost := mkGhost 0 0 0 0 0 0 [] [] false false [] 0 false.
 
 Definition on_host (g : hostf -> hostf) (m : ms) : ms :=
-  mkMs (mi m) (mv2 m) (mkFut (f_heap (mf m)) (f_imp (mf m)) (g (fh (mf m))) (fr (mf m)) (fg (mf m))) (mset m) (mlog m).
+  mkMs (mv2 m) (mkFut (f_heap (mf m)) (f_imp (mf m)) (g (fh (mf m))) (fr (mf m)) (fg (mf m))) (mset m) (mlog m).
 Definition on_rt (g : rtf -> rtf) (m : ms) : ms :=
-  mkMs (mi m) (mv2 m) (mkFut (f_heap (mf m)) (f_imp (mf m)) (fh (mf m)) (g (fr (mf m))) (fg (mf m))) (mset m) (mlog m).
+  mkMs (mv2 m) (mkFut (f_heap (mf m)) (f_imp (mf m)) (fh (mf m)) (g (fr (mf m))) (fg (mf m))) (mset m) (mlog m).
 Definition on_ghost (g : ghost -> ghost) (m : ms) : ms :=
-  mkMs (mi m) (mv2 m) (mkFut (f_heap (mf m)) (f_imp (mf m)) (fh (mf m)) (fr (mf m)) (g (fg (mf m)))) (mset m) (mlog m).
+  mkMs (mv2 m) (mkFut (f_heap (mf m)) (f_imp (mf m)) (fh (mf m)) (fr (mf m)) (g (fg (mf m)))) (mset m) (mlog m).
 Definition on_end (e : endk) (g : hend -> hend) (m : ms) : ms :=
   on_host (fun h => set_hend e (g (hend_of e h)) h) m.
-Definition set_mset (b : bool) (m : ms) : ms := mkMs (mi m) (mv2 m) (mf m) b (mlog m).
-Definition emit (t : tok) (m : ms) : ms := mkMs (mi m) (mv2 m) (mf m) (mset m) (t :: mlog m).
+Definition set_mset (b : bool) (m : ms) : ms := mkMs (mv2 m) (mf m) b (mlog m).
+Definition emit (t : tok sval) (m : ms) : ms := mkMs (mv2 m) (mf m) (mset m) (t :: mlog m).
 Definition trap_if (b : bool) (t : trapk) (m : ms) : ms := if b then emit (KTrap t) m else m.
 Definition mh (m : ms) : hostf := fh (mf m).
 Definition mr (m : ms) : rtf := fr (mf m).
@@ -220,13 +278,13 @@ Definition is_none {A} (o : option A) : bool := match o with Some _ => false | N
 Definition pending_op (x : hend) : bool := e_live x && e_copying x && is_none (e_ready x).
 
 (** After the intrinsic decided on [code]: BLOCKED = the end is now COPYING with buffer [v]. *)
-Definition finish_rw (e : endk) (v code : N) (m : ms) : ms :=
+Definition finish_rw (e : endk) (v : sval) (code : N) (m : ms) : ms :=
   if N.eqb code BLOCKED then on_end e (fun x => set_buf v (set_copying true x)) m
   else if N.eqb code COMPLETED then on_end e (set_done true) m
   else m.
 
 (** [future.write(handle, ptr)] with [*ptr = v]. *)
-Definition h_write (v : N) (m : ms) : N * ms :=
+Definition h_write (v : sval) (m : ms) : N * ms :=
   let x := mend EW m in
   if negb (e_live x) then (DROPPED, emit (KTrap TrWriteBad) m)
   else
@@ -245,7 +303,7 @@ Definition h_write (v : N) (m : ms) : N * ms :=
            (on_host (set_moved true) (on_end ER (fun y => set_ready (Some COMPLETED) (set_buf v y)) m)))
       else (BLOCKED, m) in
     let m := finish_rw EW v code m in
-    (code, emit (KWrite (mi m) code) m).
+    (code, emit (KWrite code) m).
 
 (** [future.read(handle, ptr)]; the value lands in the readable end's [e_buf]. *)
 Definition h_read (m : ms) : N * ms :=
@@ -272,7 +330,7 @@ Definition h_read (m : ms) : N * ms :=
           else (BLOCKED, m)
       end in
     let m := finish_rw ER (e_buf (mend ER m)) code m in
-    (code, emit (KRead (mi m) code) m).
+    (code, emit (KRead code) m).
 
 (** The guest is handed the pending event of end [e] (wait/poll or a cancel intrinsic). *)
 Definition consume_event (e : endk) (m : ms) : option N * ms :=
@@ -295,7 +353,7 @@ Definition h_cancel (e : endk) (m : ms) : N * ms :=
     let '(pending, m) := consume_event e m in
     let code := match pending with Some c => c | None => CANCELLED end in
     let m := on_end e (fun x => set_done (e_done x || N.eqb code COMPLETED) (set_copying false x)) m in
-    (code, emit (KCancel (mi m) e code) m).
+    (code, emit (KCancel e code) m).
 
 (** [future.drop-readable / drop-writable]. *)
 Definition h_drop (e : endk) (m : ms) : ms :=
@@ -304,21 +362,22 @@ Definition h_drop (e : endk) (m : ms) : ms :=
   else
     let m := trap_if (e_copying x) TrDropCopying m in
     let m := trap_if (match e with EW => negb (e_done x) && negb (r_dropped (mh m)) | ER => false end) TrDropUnwritten m in
-    let m := emit (KDropEnd (mi m) e) m in
+    let m := emit (KDropEnd e) m in
     let m := on_ghost (match e with EW => inc_dropw | ER => inc_dropr end) m in
+    let m := match e with ER => if moved (mh m) then m else on_ghost set_gaveup m | EW => m end in
     let m := on_end e (fun _ => end_gone) m in
     let m := on_host (match e with EW => set_w_dropped true | ER => set_r_dropped true end) m in
     if pending_op (mend (other e) m) then on_end (other e) (set_ready (Some DROPPED)) m else m.
 
 (** [waitable.join(w, set)] ([s = false]: leave). *)
 Definition h_join (e : endk) (s : bool) (m : ms) : ms :=
-  let m := emit (KJoin (mi m) e s) m in
+  let m := emit (KJoin e s) m in
   if negb (e_live (mend e m)) then emit (KTrap TrJoinBad) m
   else on_end e (set_joined s) m.
 
 (** The peer takes a guest end (the handle leaves the guest's table). *)
 Definition h_peer_take (e : endk) (m : ms) : ms :=
-  on_end e (fun _ => end_gone) (emit (KTake (mi m) e) m).
+  on_ghost (match e with ER => inc_taker | EW => fun g => g end) (on_end e (fun _ => end_gone) (emit (KTake e) m)).
 
 Definition h_peer_read (m : ms) : ms :=
   let h := mh m in
@@ -329,7 +388,7 @@ Definition h_peer_read (m : ms) : ms :=
          (on_end EW (set_ready (Some COMPLETED)) m))
   else on_host (set_peer_read true) m.
 
-Definition h_peer_write (v : N) (m : ms) : ms :=
+Definition h_peer_write (v : sval) (m : ms) : ms :=
   let h := mh m in
   if pending_op (hr h) then
     on_ghost (add_xfer v)
@@ -337,18 +396,19 @@ Definition h_peer_write (v : N) (m : ms) : ms :=
   else on_host (set_peer_write (Some v)) m.
 
 Definition h_peer_drop_reader (m : ms) : ms :=
+  let m := if moved (mh m) then m else on_ghost set_gaveup m in
   let m := on_host (fun h => set_peer_read false (set_r_dropped true h)) m in
   if pending_op (hw (mh m)) then on_end EW (set_ready (Some DROPPED)) m else m.
 
 (** ** The task (MockTask = SharedTaskState): registration map + lazily created waitable set *)
 Definition t_register (e : endk) (m : ms) : ms :=
-  let m := emit (KTreg (mi m) e) m in
+  let m := emit (KTreg e) m in
   let m := if mset m then m else set_mset true (emit KWsnew m) in
   let m := h_join e true m in
   on_rt (set_reg e true) m.
 
 Definition t_unregister (e : endk) (m : ms) : ms :=
-  let m := emit (KTunreg (mi m) e) m in
+  let m := emit (KTunreg e) m in
   let m := h_join e false m in
   on_rt (set_reg e false) m.
 
@@ -373,21 +433,21 @@ Definition drop_cabi_task (e : endk) (o : opc) (m : ms) : ms :=
   else m.
 
 (** *** FutureWriteOp *)
-Inductive wres := WWritten | WDropped (v : N) | WCancelled (v : N).
+Inductive wres := WWritten | WDropped (v : sval) | WCancelled (v : sval).
 
-Definition do_vdrop (v : N) (m : ms) : ms :=
+Definition do_vdrop (v : sval) (m : ms) : ms :=
   let m := on_ghost (add_live (-1)) m in
   if f_heap (mf m) then emit (KVdrop v) m else m.
-Definition do_lower (v : N) (m : ms) : ms := emit (KLower v) (on_ghost (fun g => add_low 1 (add_live (-1) g)) m).
-Definition do_relift (v : N) (m : ms) : ms := emit (KRelift v) (on_ghost (fun g => add_low (-1) (add_live 1 g)) m).
-Definition do_dealloc (v : N) (m : ms) : ms := emit (KDealloc v) (on_ghost (add_low (-1)) m).
-Definition do_lift (v : N) (m : ms) : ms := emit (KLift v) (on_ghost (add_live 1) m).
+Definition do_lower (v : sval) (m : ms) : ms := emit (KLower v) (on_ghost (fun g => add_low 1 (add_live (-1) g)) m).
+Definition do_relift (v : sval) (m : ms) : ms := emit (KRelift v) (on_ghost (fun g => add_low (-1) (add_live 1 g)) m).
+Definition do_dealloc (v : sval) (m : ms) : ms := emit (KDealloc v) (on_ghost (add_low (-1)) m).
+Definition do_lift (v : sval) (m : ms) : ms := emit (KLift v) (on_ghost (add_live 1) m).
 Definition do_area_new (m : ms) : ms := emit KAreaP (on_ghost (add_area 1) m).
 Definition do_area_free (m : ms) : ms := emit KAreaM (on_ghost (add_area (-1)) m).
 Definition do_panic (p : panick) (m : ms) : ms := emit (KOut (OPanic p)) m.
 
 (** [in_progress_update]: [inl res] = completed, [inr tt] = still in progress, [None] = panic. *)
-Definition w_update (v code : N) (m : ms) : option (wres + unit) * ms :=
+Definition w_update (v : sval) (code : N) (m : ms) : option (wres + unit) * ms :=
   if N.eqb code BLOCKED then (Some (inr tt), m)
   else if N.eqb code DROPPED then (Some (inl (WDropped v)), do_area_free (do_relift v m))
   else if N.eqb code CANCELLED then (Some (inl (WCancelled v)), do_area_free (do_relift v m))
@@ -398,7 +458,7 @@ Inductive pollr (R : Type) := PReady (r : R) | PPending | PPanic.
 Arguments PReady {R} r. Arguments PPending {R}. Arguments PPanic {R}.
 
 (** [poll_complete_with_code(cx, Some(code))] for a write; [cx]: a waker is supplied. *)
-Definition w_with_code (cx : bool) (o : opc) (v code : N) (m : ms) : pollr wres * opc * ms :=
+Definition w_with_code (cx : bool) (o : opc) (v : sval) (code : N) (m : ms) : pollr wres * opc * ms :=
   let o := if o_cl o then set_o_treg false o else o in
   let '(u, m) := w_update v code m in
   match u with
@@ -410,7 +470,7 @@ Definition w_with_code (cx : bool) (o : opc) (v code : N) (m : ms) : pollr wres 
   end.
 
 (** [poll_complete] of the write operation (o, v). *)
-Definition w_poll (o : opc) (v : N) (m : ms) : pollr wres * opc * ms :=
+Definition w_poll (o : opc) (v : sval) (m : ms) : pollr wres * opc * ms :=
   match o_st o with
   | OStart =>
       let m := do_area_new m in
@@ -425,10 +485,10 @@ Definition w_poll (o : opc) (v : N) (m : ms) : pollr wres * opc * ms :=
   | ODone => (PPanic, o, do_panic PRepoll m)
   end.
 
-Inductive wcancel := WCAlreadySent | WCDropped (v : N) | WCCancelled (v : N).
+Inductive wcancel := WCAlreadySent | WCDropped (v : sval) | WCCancelled (v : sval).
 
 (** [result_into_cancel]; the [RawFutureWriter] is dropped unless it is handed back. *)
-Definition w_into_cancel (v : N) (r : wres) (m : ms) : wcancel * ms :=
+Definition w_into_cancel (v : sval) (r : wres) (m : ms) : wcancel * ms :=
   match r with
   | WWritten => (WCAlreadySent, on_ghost (add_sent v) (h_drop EW m))
   | WDropped v => (WCDropped v, h_drop EW m)
@@ -436,7 +496,7 @@ Definition w_into_cancel (v : N) (r : wres) (m : ms) : wcancel * ms :=
   end.
 
 (** [WaitableOperation::cancel] of the write operation. *)
-Definition w_cancel (o : opc) (v : N) (m : ms) : option wcancel * opc * ms :=
+Definition w_cancel (o : opc) (v : sval) (m : ms) : option wcancel * opc * ms :=
   match o_st o with
   | OStart => (Some (WCCancelled v), set_o_st ODone o, m)
   | ODone => (None, o, do_panic PRecancel m)
@@ -466,7 +526,7 @@ Definition w_cancel (o : opc) (v : N) (m : ms) : option wcancel * opc * ms :=
 
 (** *** FutureWriter::drop — default value, write_and_forget, DeferredWrite::wake *)
 (** One [DeferredWrite::wake]: poll the inner write with the Arc itself as the waker. *)
-Definition deferred_wake (o : opc) (v : N) (m : ms) : ms :=
+Definition deferred_wake (o : opc) (v : sval) (m : ms) : ms :=
   let '(p, o, m) := w_poll o v m in
   match p with
   | PPending => on_rt (set_deferred (Some (o, v))) m
@@ -482,11 +542,11 @@ Definition deferred_wake (o : opc) (v : N) (m : ms) : ms :=
   end.
 
 Definition writer_drop (m : ms) : ms :=
-  let m := emit KDefault (on_ghost (fun g => inc_default (add_live 1 (add_wval DEFAULT_VAL g))) m) in
-  deferred_wake op_new DEFAULT_VAL m.
+  let m := emit KDefault (on_ghost (fun g => inc_default (add_live 1 (set_wv_dflt g))) m) in
+  deferred_wake op_new VDefault m.
 
 (** *** FutureReadOp *)
-Inductive rres := RValue (v : N) | RCancelled.
+Inductive rres := RValue (v : sval) | RCancelled.
 
 Definition r_update (code : N) (m : ms) : option (rres + unit) * ms :=
   if N.eqb code BLOCKED then (Some (inr tt), m)
@@ -522,18 +582,18 @@ Definition r_poll (o : opc) (m : ms) : pollr rres * opc * ms :=
   end.
 
 (** [Ok v] = the value arrived ([inl]); [Err reader] = cancelled, the reader is handed back ([inr]). *)
-Definition r_into_cancel (r : rres) (m : ms) : (N + unit) * ms :=
+Definition r_into_cancel (r : rres) (m : ms) : (sval + unit) * ms :=
   match r with
   | RValue v => (inl v, on_ghost (add_got v) (h_drop ER m))
   | RCancelled => (inr tt, m)
   end.
 
-Definition r_cancel (o : opc) (m : ms) : option (N + unit) * opc * ms :=
+Definition r_cancel (o : opc) (m : ms) : option (sval + unit) * opc * ms :=
   match o_st o with
   | OStart => (Some (inr tt), set_o_st ODone o, m)
   | ODone => (None, o, do_panic PRecancel m)
   | OInProg =>
-      let fin (x : pollr rres * opc * ms) : option (option (N + unit) * opc * ms) :=
+      let fin (x : pollr rres * opc * ms) : option (option (sval + unit) * opc * ms) :=
         let '(p, o, m) := x in
         match p with
         | PReady r => let '(c, m) := r_into_cancel r m in Some (Some c, o, m)
@@ -557,14 +617,15 @@ Definition r_cancel (o : opc) (m : ms) : option (N + unit) * opc * ms :=
   end.
 
 (** ** Actions on one future.  Result: [true] = the run goes on, [false] = the action panicked. *)
-Definition out (o : outcome) (m : ms) : ms := emit (KOut o) m.
+Definition out (o : outcome sval) (m : ms) : ms := emit (KOut o) m.
 Definition skip (m : ms) : bool * ms := (true, out OSkip m).
 Definition okm (m : ms) : bool * ms := (true, out OOk m).
 
-Definition a_write (v : N) (m : ms) : bool * ms :=
-  let r := mr m in
-  if writer r && is_none (write r) then
-    okm (on_ghost (fun g => add_live 1 (add_wval v g)) (on_rt (fun r => set_write (Some (op_new, v)) (set_writer false r)) m))
+(** [FutureWriter::write(value)]: accepted iff the user holds the writer and no FutureWrite object. *)
+Definition write_ready (f : fut) : bool := writer (fr f) && is_none (write (fr f)).
+Definition a_write (m : ms) : bool * ms :=
+  if write_ready (mf m) then
+    okm (on_ghost (fun g => add_live 1 (set_wv_user g)) (on_rt (fun r => set_write (Some (op_new, VUser)) (set_writer false r)) m))
   else skip m.
 
 Definition a_wpoll (m : ms) : bool * ms :=
@@ -685,9 +746,10 @@ Definition a_peer_read (m : ms) : bool * ms :=
   if r_at_peer h && negb (peer_read h) && negb (moved h) then okm (h_peer_read m) else skip m.
 Definition a_peer_drop (m : ms) : bool * ms :=
   if r_at_peer (mh m) then okm (h_peer_drop_reader m) else skip m.
-Definition a_peer_write (v : N) (m : ms) : bool * ms :=
-  let h := mh m in
-  if w_at_peer h && is_none (peer_write h) && negb (moved h) then okm (h_peer_write v m) else skip m.
+Definition peer_write_ready (f : fut) : bool :=
+  let h := fh f in w_at_peer h && is_none (peer_write h) && negb (moved h).
+Definition a_peer_write (m : ms) : bool * ms :=
+  if peer_write_ready (mf m) then okm (h_peer_write VPeer m) else skip m.
 
 (** [E:Fe]: [waitable-set.poll] hands the task the event of end [e]; the task delivers it
     ([join 0], remove the map entry, call the operation's completion callback [cabi_wake]). *)
@@ -696,8 +758,8 @@ Definition a_deliver (e : endk) (m : ms) : bool * ms :=
   if mset m && e_live x && e_joined x && is_some (e_ready x) then
     let '(oc, m) := consume_event e m in
     let c := match oc with Some c => c | None => 0 end in
-    let m := emit (KWspoll (mi m) e (match e with EW => EV_FUTURE_WRITE | ER => EV_FUTURE_READ end) c) m in
-    let m := emit (KTdeliver (mi m) e c) m in
+    let m := emit (KWspoll e (match e with EW => EV_FUTURE_WRITE | ER => EV_FUTURE_READ end) c) m in
+    let m := emit (KTdeliver e c) m in
     let m := h_join e false m in
     if reg_of e (mr m) then
       let m := on_rt (set_reg e false) m in
@@ -717,13 +779,30 @@ Definition a_deliver (e : endk) (m : ms) : bool * ms :=
     else okm m
   else skip m.
 
-(** ** The system: a list of futures, one task *)
-Record st := mkSt { futs : list fut; s_set : bool; s_v2 : bool; s_ok : bool; s_log : list tok }.
-
+(** ** One action of the core on one future *)
 Definition host0 (imp : bool) : hostf :=
   mkHost (if imp then end_gone else end_idle) end_idle false false false None [] false.
 Definition rt0 (imp : bool) : rtf := mkRt false false (negb imp) None None true None.
 Definition fut0 (heap imp : bool) : fut := mkFut heap imp (host0 imp) (rt0 imp) ghost0.
+
+Definition fact_fn (a : fact) : ms -> bool * ms :=
+  match a with
+  | FWrite => a_write | FWPoll => a_wpoll | FWCancel => a_wcancel | FWDropOp => a_wdropop
+  | FDropWriter => a_dropwriter | FRead => a_read | FRPoll => a_rpoll | FRCancel => a_rcancel
+  | FRDropOp => a_rdropop | FDropReader => a_dropreader | FTransfer => a_transfer
+  | FPeerRead => a_peer_read | FPeerDrop => a_peer_drop | FPeerWrite => a_peer_write
+  | FDeliver e => a_deliver e
+  end.
+
+(** [cstep v2 s c a]: run action [a] on the future [c]; [s] = the task's waitable set exists.
+    Result: (did not panic, the future afterwards, the set exists afterwards, this action's tokens
+    newest first). *)
+Definition cstep (v2 s : bool) (c : fut) (a : fact) : bool * fut * bool * list (tok sval) :=
+  let '(ok, m) := fact_fn a (mkMs v2 c s []) in (ok, mf m, mset m, mlog m).
+
+(** ** The system: a list of futures (each with the concrete numbers behind its symbols), one task *)
+Record sfut := mkSfut { core : fut; uval : N; pval : N }.
+Record st := mkSt { futs : list sfut; s_set : bool; s_v2 : bool; s_ok : bool; s_log : list entry }.
 
 Definition init (v2 : bool) : st := mkSt [] false v2 true [].
 
@@ -734,47 +813,63 @@ Fixpoint list_set {A} (n : nat) (x : A) (l : list A) : list A :=
   | S n, y :: r => y :: list_set n x r
   end.
 
-Definition fact (a : act) : option (nat * (ms -> bool * ms)) :=
+(** The future an action addresses, the core action, and the payload it carries (if any). *)
+Definition fact_of (a : act) : option (nat * fact * option N) :=
   match a with
   | ANew _ | AImp _ => None
-  | AWrite f v => Some (f, a_write v)
-  | AWPoll f => Some (f, a_wpoll)
-  | AWCancel f => Some (f, a_wcancel)
-  | AWDropOp f => Some (f, a_wdropop)
-  | ADropWriter f => Some (f, a_dropwriter)
-  | ARead f => Some (f, a_read)
-  | ARPoll f => Some (f, a_rpoll)
-  | ARCancel f => Some (f, a_rcancel)
-  | ARDropOp f => Some (f, a_rdropop)
-  | ADropReader f => Some (f, a_dropreader)
-  | ATransfer f => Some (f, a_transfer)
-  | APeerRead f => Some (f, a_peer_read)
-  | APeerDrop f => Some (f, a_peer_drop)
-  | APeerWrite f v => Some (f, a_peer_write v)
-  | ADeliver f e => Some (f, a_deliver e)
+  | AWrite f v => Some (f, FWrite, Some v)
+  | AWPoll f => Some (f, FWPoll, None)
+  | AWCancel f => Some (f, FWCancel, None)
+  | AWDropOp f => Some (f, FWDropOp, None)
+  | ADropWriter f => Some (f, FDropWriter, None)
+  | ARead f => Some (f, FRead, None)
+  | ARPoll f => Some (f, FRPoll, None)
+  | ARCancel f => Some (f, FRCancel, None)
+  | ARDropOp f => Some (f, FRDropOp, None)
+  | ADropReader f => Some (f, FDropReader, None)
+  | ATransfer f => Some (f, FTransfer, None)
+  | APeerRead f => Some (f, FPeerRead, None)
+  | APeerDrop f => Some (f, FPeerDrop, None)
+  | APeerWrite f v => Some (f, FPeerWrite, Some v)
+  | ADeliver f e => Some (f, FDeliver e, None)
   end.
+
+(** An accepted user write / peer write defines what [VUser] / [VPeer] stand for from now on. *)
+Definition remember (sf : sfut) (a : fact) (ov : option N) : sfut :=
+  match a, ov with
+  | FWrite, Some v => if write_ready (core sf) then mkSfut (core sf) v (pval sf) else sf
+  | FPeerWrite, Some v => if peer_write_ready (core sf) then mkSfut (core sf) (uval sf) v else sf
+  | _, _ => sf
+  end.
+
+Definition entries (i : nat) (sf : sfut) (toks : list (tok sval)) : list entry :=
+  map (fun t => ETok i (tmap (resolve (uval sf) (pval sf)) t)) toks.
 
 (** One action.  After a panic the run has stopped: further actions do nothing. *)
 Definition step (s : st) (a : act) : st :=
   if negb (s_ok s) then s
   else
-    let lg := KAct a :: s_log s in
+    let lg := EAct a :: s_log s in
     match a with
     | ANew heap =>
         let i := length (futs s) in
-        mkSt (futs s ++ [fut0 heap false]) (s_set s) (s_v2 s) true (KOut OOk :: KFnew i :: lg)
+        mkSt (futs s ++ [mkSfut (fut0 heap false) 0 0]) (s_set s) (s_v2 s) true
+             (ETok i (KOut OOk) :: ETok i KFnew :: lg)
     | AImp heap =>
         let i := length (futs s) in
-        mkSt (futs s ++ [fut0 heap true]) (s_set s) (s_v2 s) true (KOut OOk :: KTake i EW :: KFnew i :: lg)
+        mkSt (futs s ++ [mkSfut (fut0 heap true) 0 0]) (s_set s) (s_v2 s) true
+             (ETok i (KOut OOk) :: ETok i (KTake EW) :: ETok i KFnew :: lg)
     | _ =>
-        match fact a with
+        match fact_of a with
         | None => s
-        | Some (i, g) =>
+        | Some (i, fa, ov) =>
             match nth_error (futs s) i with
-            | None => mkSt (futs s) (s_set s) (s_v2 s) true (KOut OSkip :: lg)
-            | Some f =>
-                let '(ok, m) := g (mkMs i (s_v2 s) f (s_set s) lg) in
-                mkSt (list_set i (mf m) (futs s)) (mset m) (s_v2 s) ok (mlog m)
+            | None => mkSt (futs s) (s_set s) (s_v2 s) true (ETok i (KOut OSkip) :: lg)
+            | Some sf =>
+                let sf := remember sf fa ov in
+                let '(ok, c, set, toks) := cstep (s_v2 s) (s_set s) (core sf) fa in
+                mkSt (list_set i (mkSfut c (uval sf) (pval sf)) (futs s)) set (s_v2 s) ok
+                     (entries i sf toks ++ lg)
             end
         end
     end.
@@ -812,7 +907,7 @@ Record summary := mkSum {
   su_map : nat; su_clones : nat; su_defaults : nat; su_peer : list (list N) }.
 
 Definition summarise (s : st) : summary :=
-  let fs := futs s in
+  let fs := map core (futs s) in
   mkSum (negb (s_ok s))
         (sum_nat (map slots_of fs))
         (sum_Z (map (fun f => if f_heap f then g_live (fg f) else 0%Z) fs))
@@ -822,19 +917,22 @@ Definition summarise (s : st) : summary :=
         (sum_nat (map map_of fs))
         (sum_nat (map clones_of fs))
         (sum_nat (map (fun f => n_default (fg f)) fs))
-        (map (fun f => peer_recv (fh f)) fs).
+        (map (fun sf => map (resolve (uval sf) (pval sf)) (peer_recv (fh (core sf)))) (futs s)).
 
-Definition run (v2 : bool) (tr : list act) : list tok * summary :=
+Definition run (v2 : bool) (tr : list act) : list entry * summary :=
   let s := exec v2 tr in (rev (s_log s), summarise s).
 
 (** ** The property's predicates on a log / state *)
-Definition is_trap (t : tok) : bool := match t with KTrap _ => true | _ => false end.
-Definition is_bad_panic (t : tok) : bool :=
+Definition is_trap {V} (t : tok V) : bool := match t with KTrap _ => true | _ => false end.
+Definition is_bad_panic {V} (t : tok V) : bool :=
   match t with
   | KOut (OPanic PUnexpectedCode) | KOut (OPanic PPollAfterCancel) | KOut (OPanic PCancelPending) => true
   | _ => false
   end.
-Definition clean_log (l : list tok) : bool := negb (existsb (fun t => is_trap t || is_bad_panic t) l).
+Definition bad_tok {V} (t : tok V) : bool := is_trap t || is_bad_panic t.
+Definition clean_toks {V} (l : list (tok V)) : bool := negb (existsb bad_tok l).
+Definition clean_log (l : list entry) : bool :=
+  negb (existsb (fun e => match e with ETok _ t => bad_tok t | EAct _ => false end) l).
 
 (** Nothing left on a future: both handles gone from the guest's table, nothing registered, no
     operation alive, ledger at zero. *)
